@@ -5,7 +5,9 @@ row sets = ordered k-subsets of a small integer row alphabet whose leading Gram 
 (decided with exact integer determinants), exact kernels / circumcentres from fractions
 (mc/oracle/linalg.py), arc helpers on a complete grid of angle pairs.
 """
+import functools
 import itertools
+import warnings
 import math
 
 import numpy as np
@@ -42,6 +44,17 @@ def _skip(why):
 
 def _V(key, msg):
     return {"key": key, "msg": msg}
+
+
+def _quiet(fn):
+    """run a case function with NumPy / library warnings silenced (nothing is printed per case)."""
+    @functools.wraps(fn)
+    def wrapped(case):
+        with warnings.catch_warnings():
+            warnings.simplefilter("ignore")
+            with np.errstate(all="ignore"):
+                return fn(case)
+    return wrapped
 
 
 def _shape_tile(units, shape):
@@ -89,6 +102,7 @@ def _check_orth_unit(v, R, O, Bf, cls, where):
     return tuple(int(round(x)) for x in np.diag(G))
 
 
+@_quiet
 def case_orth(case):
     from geometry_tools import utils
     B, Bf = _form(case)
@@ -114,6 +128,7 @@ def case_orth(case):
     return {"v": v, "t": t, "o": repr((case["p"], case["q"], signs)), "nt": True}
 
 
+@_quiet
 def case_orth_batch(case):
     from geometry_tools import utils
     B, Bf = _form(case)
@@ -186,6 +201,7 @@ def _check_iso_unit(v, R, M, Bf, k, fo, cls, where):
     return (tuple(int(round(x)) for x in np.diag(G)), d > 0)
 
 
+@_quiet
 def case_isometry(case):
     from geometry_tools import utils
     B, Bf = _form(case)
@@ -211,6 +227,7 @@ def case_isometry(case):
     return {"v": v, "t": t, "o": repr((case["p"], case["q"], out)), "nt": True}
 
 
+@_quiet
 def case_isometry_batch(case):
     from geometry_tools import utils
     B, Bf = _form(case)
@@ -260,6 +277,7 @@ def _check_definite_unit(v, R, M, k, fo, where):
     return ("rows" if by_rows else "", "cols" if by_cols else "", d > 0)
 
 
+@_quiet
 def case_definite(case):
     from geometry_tools import utils
     rows = case["rows"]
@@ -282,6 +300,7 @@ def case_definite(case):
     return {"v": v, "t": t, "o": repr(out), "nt": True}
 
 
+@_quiet
 def case_definite_batch(case):
     from geometry_tools import utils
     shape = tuple(case["shape"])
@@ -308,6 +327,7 @@ def case_definite_batch(case):
 # ------------------------------------------------------------------------------------------
 # orthogonal_complement, projection
 # ------------------------------------------------------------------------------------------
+@_quiet
 def case_complement(case):
     from geometry_tools import utils
     B, Bf = _form(case)
@@ -349,6 +369,7 @@ def case_complement(case):
     return {"v": v, "t": t, "o": repr((case["p"], case["q"], n - k)), "nt": True}
 
 
+@_quiet
 def case_projection(case):
     """projection(v1, v2, B) = v2 <v1,v2>/<v2,v2> on all ordered pairs of the row alphabet (one
     batched call of every rank plus the scalar calls)."""
@@ -429,6 +450,7 @@ def _check_diag_unit(v, Bf, W, Winv, p, q, order, reverse, where):
     return tuple(signs)
 
 
+@_quiet
 def case_diagform(case):
     from geometry_tools import utils
     B, Bf = _form(case)
@@ -459,6 +481,7 @@ def case_diagform(case):
     return {"v": v, "t": t, "o": repr((p, q, case["conj"], case.get("scale", 1.0), out[:4])), "nt": True}
 
 
+@_quiet
 def case_diagform_batch(case):
     from geometry_tools import utils
     forms = [_form(f)[1] for f in case["forms"]]
@@ -484,6 +507,7 @@ def case_diagform_batch(case):
     return {"v": v, "t": 1, "o": repr((shape, order, reverse, out[:3])), "nt": len(set(sigs)) > 1}
 
 
+@_quiet
 def case_permute(case):
     """permute_along_axis has no docstring; the only law demanded is that inverse=True undoes
     inverse=False along the same axis and that slices are permuted, not altered (its convention is
@@ -551,6 +575,7 @@ def _mat_from_code(code, m, n, alpha):
     return [ent[i * n:(i + 1) * n] for i in range(m)]
 
 
+@_quiet
 def case_kernel(case):
     """A block of consecutive integer matrices (entries from `alpha`, enumeration index
     lo..hi-1 in base len(alpha)) of one shape."""
@@ -571,6 +596,7 @@ def case_kernel(case):
     return {"v": v[:6], "t": t, "o": repr((m, n, sorted(classes))), "nt": True}
 
 
+@_quiet
 def case_kernel_batch(case):
     from geometry_tools import utils
     mats = case["mats"]
@@ -594,6 +620,7 @@ def case_kernel_batch(case):
     return {"v": v, "t": 1, "o": repr((m, n, r, shape)), "nt": True}
 
 
+@_quiet
 def case_svd_kernel_mixed(case):
     """svd_kernel(matching_rank=False, with_dimensions=True, with_loc=True) on a stack of matrices of
     different ranks: every returned basis is a kernel basis of its matrices."""
@@ -642,6 +669,7 @@ def _check_sphere_unit(v, pts, centre, radius, where):
                     "points %r: centre %r radius %r, exact %r %r" % (pts, centre.tolist(), float(radius), c_ex.tolist(), r_ex)))
 
 
+@_quiet
 def case_sphere(case):
     """all orderings given in case["sets"] (each a list of d+1 integer points of Z^d)."""
     from geometry_tools import utils
@@ -663,6 +691,7 @@ def case_sphere(case):
     return {"v": v[:4], "t": t, "o": repr((len(case["sets"][0][0]), n_ok, case["sets"][0])), "nt": n_ok > 0}
 
 
+@_quiet
 def case_sphere_batch(case):
     from geometry_tools import utils
     sets = [s for s in case["sets"] if L.affinely_independent(s)]
@@ -738,6 +767,7 @@ def _check_arcs(fn, thetas, ref, out):
     return bad
 
 
+@_quiet
 def case_arcs(case):
     from geometry_tools import utils
     fn, rank, seed = case["fn"], case["rank"], case["seed"]
@@ -778,6 +808,7 @@ def case_arcs(case):
     return {"v": v, "t": 1, "o": repr((fn, rank, swapped, case.get("a"), case.get("b") if rank == 0 else None)), "nt": True}
 
 
+@_quiet
 def case_circle_angles(case):
     from geometry_tools import utils
     seed = case["seed"]
